@@ -366,6 +366,51 @@ func (r *Run) pointConversionsVerbatim(fns []*Func) {
 				}
 				lit, lfn := r.P.compositeOfIn(fn, ev.Results[0])
 				if lit == nil {
+					// return NewVector3f(p.GetX(), p.GetY(), p.GetZ()): a constructor of the package whose one return is a
+					// literal of its own parameters, in some order
+					if call, isCall := ast.Unparen(ev.Results[0]).(*ast.CallExpr); isCall {
+						if g, _ := calleeObj(fn.Info(), call).(*types.Func); g != nil && g.Pkg() != nil && g.Pkg().Path() == pkgDagaz {
+							if gd := r.P.Funcs[g]; gd != nil && gd.Body != nil && len(gd.Body.List) == 1 {
+								if rs, isRet := gd.Body.List[0].(*ast.ReturnStmt); isRet && len(rs.Results) == 1 {
+									if gl, isLit := ast.Unparen(rs.Results[0]).(*ast.CompositeLit); isLit && len(gl.Elts) == len(call.Args) {
+										okCtor := true
+										args := make([]ast.Expr, len(gl.Elts))
+										for i, el := range gl.Elts {
+											v := el
+											if kv, ok := el.(*ast.KeyValueExpr); ok {
+												v = kv.Value
+											}
+											id, isID := ast.Unparen(v).(*ast.Ident)
+											if !isID {
+												okCtor = false
+												break
+											}
+											pv, _ := gd.Info().Uses[id].(*types.Var)
+											k := -1
+											if pv != nil {
+												k = paramIndex(gd, pv)
+											}
+											if k < 0 || k >= len(call.Args) {
+												okCtor = false
+												break
+											}
+											args[i] = call.Args[k]
+										}
+										if okCtor {
+											for i, a := range args {
+												c := r.P.Canon(fn, a)
+												n++
+												ok := strings.HasPrefix(c, src+".") && !strings.ContainsAny(c[len(src)+1:], ".([ ")
+												r.CheckT("Q9", fmt.Sprintf("%s:verbatim[%d]", fn.Name, i), ok, a.Pos(), &path,
+													"component %d of the converted point is %q, not the corresponding component of the value handed in as it is", i, c)
+											}
+											continue
+										}
+									}
+								}
+							}
+						}
+					}
 					n++
 					r.CheckT("Q9", fn.Name+":verbatim", false, ev.Pos, &path, "the conversion does not return a literal built from the three components")
 					continue
@@ -927,8 +972,9 @@ func (r *Run) regionDedupIn(root, fn *Func, judgeResult bool, count *int) map[*a
 							"the result of the region query is collected from %s, which does not make each plane appear once (accepted: the keys of a map keyed by plane pointers)", types.ExprString(m))
 					}
 					// the keys of a pointer-keyed map, through a generic helper of the repository (mapx.Keys(found))
-					if f, ok := calleeObj(info, call).(*types.Func); ok && len(call.Args) == 1 && isRepoPkg(f.Pkg()) && f.Pkg().Path() != pkgDagaz {
+					if f, ok := calleeObj(info, call).(*types.Func); ok && len(call.Args) == 1 && isRepoPkg(f.Pkg()) {
 						if g := r.P.Funcs[f]; g != nil && isKeysFunc(g) {
+							delete(resultCalls, call) // judged here, at the type the helper is used with
 							*count++
 							r.Check("Q3", site+":result-unique", isPtrKeyedMap(info.TypeOf(call.Args[0])), call.Pos(),
 								"the result of the region query is the key set of %s, which is not a map keyed by plane pointers: a plane may be returned once per cell it is registered in", types.ExprString(call.Args[0]))
